@@ -380,18 +380,38 @@ def u_neg(ctx, u):
         ctx.nontrivial('bad-c1', der, name)
     # invalid-curve attack: C1 on y^2 = x^3 + ax + (b+1), C2/C3 computed consistently with [d]C1 on THAT curve
     # (the group law does not involve b), so only the on-curve test of C1 can refuse it
+    # Every crafted C1 is also presented with the C2/C3 an attacker can compute without the private key being involved in
+    # the on-curve decision: (a) [d]C1 under the group law (which does not involve b) for C1 with coordinates below p,
+    # (b) the all-zero serialisation of the point at infinity (what [d]O gives if (0,0) or any other non-point is taken
+    # for infinity). Only the refusal of C1 itself can stop these: the C3 comparison succeeds by construction.
     for name, pt in _bad_points(rng, c1):
-        if name != 'wrong-curve':
-            continue
-        x2, y2 = R.mul(d, pt)
-        t = R.kdf(R.i2b(x2) + R.i2b(y2), len(msg))
-        if not any(t):
-            continue
-        c2w = bytes(a ^ b for a, b in zip(msg, t))
-        c3w = R.sm3(R.i2b(x2) + msg + R.i2b(y2))
-        ctx.begin(['invalid-curve-consistent'])
-        _decrypt_all(ctx, key, R.ct_der(pt, c3w, c2w), None, 'c1-off-curve-with-consistent-c3')
-        ctx.nontrivial('invalid-curve', der)
+        shared = [('infinity', (0, 0))]
+        if pt[0] < P and pt[1] < P and pt != (0, 0):
+            try:
+                sp = R.mul(d, pt)
+            except (ZeroDivisionError, ValueError):
+                sp = None
+            if sp is not None:
+                shared.append(('group-law', sp))
+        for sname, (x2, y2) in shared:
+            t = R.kdf(R.i2b(x2) + R.i2b(y2), len(msg))
+            if not any(t):
+                continue
+            c2w = bytes(a ^ b for a, b in zip(msg, t))
+            c3w = R.sm3(R.i2b(x2) + msg + R.i2b(y2))
+            ctx.begin(['bad-c1-consistent', name, sname])
+            sb = ctx.inbuf(_ct_struct(ctx, pt, c3w, c2w))
+            out = ctx.buf(len(c2w))
+            ol = ctypes.c_size_t(0)
+            r = lib.sm2_do_decrypt(key, sb, out, ctypes.byref(ol))
+            ctx.check(r != 1, 'decrypt:accepted-invalid:c1-%s-with-consistent-c3:sm2_do_decrypt' % name, shared=sname,
+                      c1=[hex(pt[0]), hex(pt[1])])
+            sb.free()
+            out.free()
+            if pt[0] < (1 << 256) and pt[1] < (1 << 256):
+                _decrypt_all(ctx, key, R.ct_der(pt, c3w, c2w), None,
+                             'c1-off-curve-with-consistent-c3' if name == 'wrong-curve' else 'c1-%s-with-consistent-c3' % name, shared=sname)
+            ctx.nontrivial('bad-c1-consistent', der, name, sname)
     # the negated C1 is a finite curve point: C3 must then fail
     _decrypt_all(ctx, key, R.ct_der(R.neg(c1), c3, c2), R.decrypt(d, R.neg(c1), c3, c2), 'c1-negated')
     # truncations and extensions
